@@ -647,6 +647,28 @@ func c04Directed() string {
 	if dKeys(m) != "name" || fmt.Sprint(d.Tags) != "[d]" || d.P != nil || d.Name != "stale" {
 		return fmt.Sprintf("blank inputs with the application's own context values (trim, required, optional, strict, ... = false): issues [%s], destination %+v; want one required issue at name, tags [d], p nil, name untouched", dKeys(m), d)
 	}
+	// a list holding one blank string is a present list whose one item is absent; a record the source has nothing for is a record of
+	// absent fields whatever (deprecated, no-op) modifiers the struct schema was given
+	type tl struct{ Tags []string }
+	var t1 tl
+	m = z.Struct(z.Schema{"tags": z.Slice(z.String().Required()).Default([]string{"dflt"})}).Parse(map[string]any{"tags": []string{" "}}, &t1)
+	if dKeys(m) != "tags[0]" || len(t1.Tags) != 1 || t1.Tags[0] != "" {
+		return fmt.Sprintf("{tags: Slice(String().Required()).Default([dflt])} on {tags: []string{\" \"}}: issues [%s], destination %q; want one required issue at tags[0] and a list of one empty item (the list is present)", dKeys(m), t1.Tags)
+	}
+	type inner struct {
+		A string
+		B string
+	}
+	type outer struct {
+		In  inner
+		Opt inner
+	}
+	var o1 outer
+	mkIn := func() *z.StructSchema { return z.Struct(z.Schema{"a": z.String().Required(), "b": z.String().Default("bd")}) }
+	m = z.Struct(z.Schema{"in": mkIn().Optional(), "opt": mkIn().Required().Optional()}).Parse(map[string]any{"opt": nil}, &o1)
+	if dKeys(m) != "in.a, opt.a" || o1.In.B != "bd" || o1.Opt.B != "bd" {
+		return fmt.Sprintf("{in: Struct{a: Required, b: Default(bd)}.Optional(), opt: the same .Required().Optional()} on {opt: nil}: issues [%s], destination %+v; want required issues at in.a and opt.a and both b = bd", dKeys(m), o1)
+	}
 	return ""
 }
 
